@@ -55,8 +55,8 @@ func c09Order(c *Ctx) {
 			call := site.(*ssa.Call)
 			fid := core.FuncID(f)
 			key := "C09.order/" + fid
-			if !(strings.HasSuffix(fid, ").VerifyAndDecodeWithKID") || strings.HasSuffix(fid, ").VerifyMACAndDecodeWithKID")) {
-				r.Bad("C09.order", key, p.Pos(call.Pos()), "a VerifiedJWT is constructed outside the …WithKID verify methods")
+			if core.Rel(core.PkgOf(f)) != "jwt" {
+				r.Bad("C09.order", key, p.Pos(call.Pos()), "a VerifiedJWT is constructed outside package jwt")
 				continue
 			}
 			raw := call.Call.Args[0]
@@ -69,7 +69,7 @@ func c09Order(c *Ctx) {
 				}
 				nme := guard.CalleeName(&ec.Call)
 				switch {
-				case nme == "("+core.ModPath+"/tink.Verifier).Verify" || nme == "("+core.ModPath+"/tink.MAC).VerifyMAC":
+				case isVerifyName(nme) || isVerifyParam(p, f, ec):
 					verifyCall = ec
 				case ec.Call.StaticCallee() == dec:
 					decodeCall = ec
@@ -109,7 +109,7 @@ func c09Order(c *Ctx) {
 			r.Check(why == "", "C09.order", key, p.Pos(call.Pos()), why, "verify(sig, []byte(content)) ok -> decodeUnsignedTokenAndValidateHeader(content) ok -> Validate(raw) ok -> newVerifiedJWT(raw)")
 		}
 	}
-	if n < 2 {
+	if n < 1 {
 		r.AnchorMissing("C09.order", "calls of newVerifiedJWT")
 	}
 	// splitSignedCompact: exactly one more dot, non-empty signature
@@ -136,6 +136,53 @@ func c09Order(c *Ctx) {
 			r.Check(okCount, "C09.order", "C09.order/jwt.splitSignedCompact", p.FuncPos(f), "the unsigned part is not required to contain exactly one dot", "strings.Count(unsigned, \".\") == 1")
 		}
 	}
+}
+
+func isVerifyName(nme string) bool {
+	nme = strings.TrimSuffix(nme, "$bound")
+	return nme == "("+core.ModPath+"/tink.Verifier).Verify" || nme == "("+core.ModPath+"/tink.MAC).VerifyMAC"
+}
+
+// isVerifyParam: ec calls a function-typed parameter of f, and at every call
+// site of f in the module that parameter is the bound method value
+// tink.Verifier.Verify / tink.MAC.VerifyMAC of some primitive.
+func isVerifyParam(p *core.Program, f *ssa.Function, ec *ssa.Call) bool {
+	prm, ok := ec.Call.Value.(*ssa.Parameter)
+	if !ok {
+		return false
+	}
+	idx := -1
+	for i, q := range f.Params {
+		if q == prm {
+			idx = i
+		}
+	}
+	if idx < 0 {
+		return false
+	}
+	sites := 0
+	for _, g := range p.SortedFuncs(core.Product) {
+		bad := false
+		allInstrs(g, func(ins ssa.Instruction) {
+			call, isCall := ins.(ssa.CallInstruction)
+			if !isCall || call.Common().StaticCallee() != f {
+				return
+			}
+			sites++
+			if idx >= len(call.Common().Args) {
+				bad = true
+				return
+			}
+			mc, isMC := guard.Strip(call.Common().Args[idx]).(*ssa.MakeClosure)
+			if !isMC || !strings.HasSuffix(mc.Fn.String(), "$bound") || !isVerifyName(mc.Fn.String()) {
+				bad = true
+			}
+		})
+		if bad {
+			return false
+		}
+	}
+	return sites > 0
 }
 
 // ---------------------------------------------------------------- header
@@ -344,126 +391,336 @@ func c09Time(c *Ctx) {
 		r.AnchorMissing("C09.time", "(*jwt.Validator).validateTimestamps")
 		return
 	}
-	// After(x, Add(now, d)) facts
-	type afterFact struct {
-		subject string // ExpiresAt / NotBefore / IssuedAt
-		skewNeg bool
-		val     bool
-		nowOK   bool
-	}
-	decode := func(fct guard.Fact) (afterFact, bool) {
-		call, val, ok := guard.BoolCallFact(fct)
-		if !ok || guard.CalleeName(&call.Call) != "(time.Time).After" {
-			return afterFact{}, false
-		}
-		af := afterFact{val: val}
-		if sc, _ := guard.CallOf(call.Call.Args[0]); sc != nil {
-			nme := guard.CalleeName(&sc.Call)
-			af.subject = nme[strings.LastIndex(nme, ".")+1:]
-		}
-		ac, _ := guard.CallOf(call.Call.Args[1])
-		if ac == nil || guard.CalleeName(&ac.Call) != "(time.Time).Add" {
-			return af, true
-		}
-		// now operand: phi of time.Now() and FixedNow, or those directly
-		af.nowOK = isNowValue(ac.Call.Args[0], vt)
-		d := guard.Strip(ac.Call.Args[1])
-		if u, isU := d.(*ssa.UnOp); isU && u.Op == token.SUB {
-			af.skewNeg = true
-			d = guard.Strip(u.X)
-		}
-		if _, fld, isF := guard.FieldOf(d); !isF || fld != "ClockSkew" {
-			af.nowOK = false
-		}
-		return af, true
-	}
-	found := map[string]bool{}
-	for _, ret := range guard.Returns(vt) {
-		if !guard.DefinitelyFails(ret) {
-			continue
-		}
-		facts := guard.BlockFacts(ret.Block())
-		for _, fct := range facts {
-			af, ok := decode(fct)
-			if !ok || !af.nowOK {
-				continue
-			}
-			switch {
-			case af.subject == "ExpiresAt" && af.skewNeg && !af.val:
-				found["exp"] = true // reject iff !(exp > now - skew)
-			case af.subject == "NotBefore" && !af.skewNeg && af.val:
-				found["nbf"] = true // reject iff nbf > now + skew
-			case af.subject == "IssuedAt" && !af.skewNeg && af.val:
-				// only under ExpectIssuedInThePast
-				for _, f2 := range facts {
-					if _, fld, isF := guard.FieldOf(f2.Cond); isF && fld == "ExpectIssuedInThePast" && f2.True {
-						found["iat"] = true
-					}
+	// The decision of validateTimestamps is folded per claim and per ordering of
+	// the claim time T relative to its bound B (T < B, T == B, T > B): every
+	// time comparison between T and B (After/Before/Equal/Compare, either
+	// operand order, in vt or in helpers it calls) is bound to its truth value
+	// under that ordering, the claim's presence test to true, everything else
+	// is left unknown, and the constant propagator explores the function. The
+	// shape of the code (negations, ||-chains, helper functions, hoisted bounds)
+	// does not matter; only the decision does.
+	scope := []*ssa.Function{vt}
+	seenFn := map[*ssa.Function]bool{vt: true}
+	for i := 0; i < len(scope) && i < 16; i++ {
+		allInstrs(scope[i], func(ins ssa.Instruction) {
+			if call, ok := ins.(*ssa.Call); ok {
+				if g := call.Call.StaticCallee(); g != nil && g.Blocks != nil && isJWTPkg(core.Rel(core.PkgOf(g))) && !seenFn[g] && g.Pkg == vt.Pkg {
+					seenFn[g] = true
+					scope = append(scope, g)
 				}
 			}
-		}
-		// missing expiration
-		hasExpFalse, allowFalse := false, false
-		for _, fct := range facts {
-			if call, val, ok := guard.BoolCallFact(fct); ok && !val && strings.HasSuffix(guard.CalleeName(&call.Call), "RawJWT).HasExpiration") {
-				hasExpFalse = true
-			}
-			if _, fld, isF := guard.FieldOf(fct.Cond); isF && fld == "AllowMissingExpiration" && !fct.True {
-				allowFalse = true
-			}
-		}
-		if hasExpFalse && allowFalse {
-			found["missing-exp"] = true
-		}
+		})
 	}
-	for _, k := range []string{"exp", "nbf", "iat", "missing-exp"} {
-		desc := map[string]string{"exp": "reject iff !(exp.After(now - skew))", "nbf": "reject iff nbf.After(now + skew)", "iat": "reject iff ExpectIssuedInThePast && iat.After(now + skew)", "missing-exp": "reject iff !HasExpiration() && !AllowMissingExpiration"}[k]
-		r.Check(found[k], "C09.time", "C09.time/validateTimestamps/"+k, p.FuncPos(vt), "no error return with exactly this guard: "+desc, desc)
+	// classify a time operand
+	var classify func(v ssa.Value, depth int) string
+	classify = func(v ssa.Value, depth int) string {
+		v = guard.Strip(v)
+		if ex, ok := v.(*ssa.Extract); ok && ex.Index == 0 {
+			v = ex.Tuple
+		}
+		if call, ok := v.(*ssa.Call); ok {
+			n := guard.CalleeName(&call.Call)
+			switch {
+			case strings.HasSuffix(n, "RawJWT).ExpiresAt"):
+				return "exp"
+			case strings.HasSuffix(n, "RawJWT).NotBefore"):
+				return "nbf"
+			case strings.HasSuffix(n, "RawJWT).IssuedAt"):
+				return "iat"
+			case n == "(time.Time).Add":
+				if !isNowValue(call.Call.Args[0], call.Parent()) {
+					return "?"
+				}
+				d := guard.Strip(call.Call.Args[1])
+				neg := false
+				if u, isU := d.(*ssa.UnOp); isU && u.Op == token.SUB {
+					neg, d = true, guard.Strip(u.X)
+				} else if bo, isB := d.(*ssa.BinOp); isB && bo.Op == token.SUB {
+					if k, isK := guard.ConstInt(bo.X); isK && k == 0 {
+						neg, d = true, guard.Strip(bo.Y)
+					}
+				}
+				if _, fld, isF := guard.FieldOf(d); !isF || fld != "ClockSkew" {
+					return "?"
+				}
+				if neg {
+					return "now-skew"
+				}
+				return "now+skew"
+			}
+		}
+		if isNowValue(v, vt) {
+			return "now"
+		}
+		// parameter of a helper: the same class at every call site
+		if prm, ok := v.(*ssa.Parameter); ok && depth < 2 {
+			idx := -1
+			for i, q := range prm.Parent().Params {
+				if q == prm {
+					idx = i
+				}
+			}
+			cls := ""
+			for _, f := range scope {
+				allInstrs(f, func(ins ssa.Instruction) {
+					if call, ok := ins.(*ssa.Call); ok && call.Call.StaticCallee() == prm.Parent() && idx >= 0 && idx < len(call.Call.Args) {
+						k := classify(call.Call.Args[idx], depth+1)
+						if cls == "" {
+							cls = k
+						} else if cls != k {
+							cls = "?"
+						}
+					}
+				})
+			}
+			if cls != "" {
+				return cls
+			}
+		}
+		return "?"
 	}
-	// no other After/Before comparisons (e.g. a flipped or duplicated check)
-	nCmp := 0
-	allInstrs(vt, func(ins ssa.Instruction) {
-		if call, ok := ins.(*ssa.Call); ok {
-			switch guard.CalleeName(&call.Call) {
+	type tcmp struct {
+		call     *ssa.Call
+		method   string
+		claimRcv bool // the claim is the receiver (first operand)
+		bound    string
+	}
+	cmps := map[string][]tcmp{}
+	undecided := ""
+	for _, f := range scope {
+		allInstrs(f, func(ins ssa.Instruction) {
+			call, ok := ins.(*ssa.Call)
+			if !ok {
+				return
+			}
+			n := guard.CalleeName(&call.Call)
+			switch n {
 			case "(time.Time).After", "(time.Time).Before", "(time.Time).Equal", "(time.Time).Compare":
-				nCmp++
+			default:
+				return
+			}
+			x, y := classify(call.Call.Args[0], 0), classify(call.Call.Args[1], 0)
+			isClaim := func(k string) bool { return k == "exp" || k == "nbf" || k == "iat" }
+			m := n[strings.LastIndex(n, ".")+1:]
+			switch {
+			case isClaim(x) && !isClaim(y):
+				cmps[x] = append(cmps[x], tcmp{call, m, true, y})
+			case isClaim(y) && !isClaim(x):
+				cmps[y] = append(cmps[y], tcmp{call, m, false, x})
+			case isClaim(x) && isClaim(y):
+				undecided = "two claims compared with each other at " + p.Pos(call.Pos())
+			}
+		})
+	}
+	ev := consteval.New()
+	presence := map[string]string{"exp": "RawJWT).HasExpiration", "nbf": "RawJWT).HasNotBefore", "iat": "RawJWT).HasIssuedAt"}
+	// run folds vt with the given bindings; reports (every outcome fails, some outcome succeeds)
+	run := func(env consteval.Env) (allFail, someOK, ok bool) {
+		for _, prm := range vt.Params {
+			env[prm] = consteval.Val{K: consteval.Ref}
+		}
+		outs, ok := ev.Eval(vt, nil, env)
+		if !ok || len(outs) == 0 {
+			return false, false, false
+		}
+		allFail = true
+		for _, o := range outs {
+			fails := o.IsErr() || guard.DefinitelyFails(o.Ret)
+			if !fails {
+				allFail = false
+				someOK = true
 			}
 		}
-	})
-	r.Check(nCmp == 3, "C09.time", "C09.time/validateTimestamps/comparisons", p.FuncPos(vt), fmt.Sprintf("expected exactly the three time comparisons exp/nbf/iat, found %d", nCmp), "exactly three time comparisons")
-	// success only after all of them: every success return is dominated by the exp check outcome or missing-exp allowance — covered by the guards above.
-	// time.Now only inside validateTimestamps
-	var nowSites []string
+		return allFail, someOK, true
+	}
+	bindPresence := func(env consteval.Env, claim string, present bool) {
+		suffix := presence[claim]
+		for _, f := range scope {
+			allInstrs(f, func(ins ssa.Instruction) {
+				if call, ok := ins.(*ssa.Call); ok && suffix != "" && strings.HasSuffix(guard.CalleeName(&call.Call), suffix) {
+					env[call] = consteval.B(present)
+				}
+			})
+		}
+	}
+	bindField := func(env consteval.Env, field string, val bool) {
+		for _, f := range scope {
+			for k, v := range bindFieldLoadsByName(f, map[string]consteval.Val{field: consteval.B(val)}) {
+				env[k] = v
+			}
+		}
+	}
+	want := map[string]struct {
+		bound  string
+		reject map[string]bool // orderings of T relative to B that must be rejected
+		desc   string
+	}{
+		"exp": {"now-skew", map[string]bool{"<": true, "=": true}, "rejected iff exp <= now - skew"},
+		"nbf": {"now+skew", map[string]bool{">": true}, "rejected iff nbf > now + skew"},
+		"iat": {"now+skew", map[string]bool{">": true}, "rejected iff ExpectIssuedInThePast and iat > now + skew"},
+	}
+	for _, claim := range []string{"exp", "nbf", "iat"} {
+		w := want[claim]
+		key := "C09.time/validateTimestamps/" + claim
+		if undecided != "" {
+			r.Unknown("C09.time", key, p.FuncPos(vt), undecided)
+			continue
+		}
+		cs := cmps[claim]
+		if len(cs) == 0 {
+			r.Bad("C09.time", key, p.FuncPos(vt), "the "+claim+" claim is never compared with the clock: "+w.desc)
+			continue
+		}
+		badBound := ""
+		for _, cm := range cs {
+			if cm.bound != w.bound {
+				badBound = fmt.Sprintf("%s is compared with %q at %s; the bound must be %s", claim, cm.bound, p.Pos(cm.call.Pos()), w.bound)
+			}
+		}
+		if badBound != "" {
+			if strings.Contains(badBound, `"?"`) {
+				r.Unknown("C09.time", key, p.FuncPos(vt), badBound+" (operand not recognised as now ± ClockSkew)")
+			} else {
+				r.Bad("C09.time", key, p.FuncPos(vt), badBound)
+			}
+			continue
+		}
+		detail := ""
+		for _, sign := range []string{"<", "=", ">"} {
+			env := consteval.Env{}
+			for _, cm := range cs {
+				s := sign
+				if !cm.claimRcv { // B.method(T): ordering of B relative to T
+					s = map[string]string{"<": ">", "=": "=", ">": "<"}[sign]
+				}
+				switch cm.method {
+				case "After":
+					env[cm.call] = consteval.B(s == ">")
+				case "Before":
+					env[cm.call] = consteval.B(s == "<")
+				case "Equal":
+					env[cm.call] = consteval.B(s == "=")
+				case "Compare":
+					env[cm.call] = consteval.C(map[string]int64{"<": -1, "=": 0, ">": 1}[s])
+				}
+			}
+			bindPresence(env, claim, true)
+			if claim == "iat" {
+				bindField(env, "ExpectIssuedInThePast", true)
+			}
+			allFail, someOK, ok := run(env)
+			if !ok {
+				detail = "cannot fold validateTimestamps"
+				break
+			}
+			if w.reject[sign] && !allFail {
+				detail = fmt.Sprintf("a token with %s %s %s can pass validateTimestamps", claim, sign, w.bound)
+			}
+			if !w.reject[sign] && !someOK {
+				detail = fmt.Sprintf("a token with %s %s %s is always rejected", claim, sign, w.bound)
+			}
+		}
+		if claim == "iat" && detail == "" {
+			// without ExpectIssuedInThePast a future iat is not a reason to reject
+			env := consteval.Env{}
+			for _, cm := range cs {
+				switch cm.method {
+				case "After":
+					env[cm.call] = consteval.B(cm.claimRcv)
+				case "Before":
+					env[cm.call] = consteval.B(!cm.claimRcv)
+				case "Equal":
+					env[cm.call] = consteval.B(false)
+				case "Compare":
+					env[cm.call] = consteval.C(map[bool]int64{true: 1, false: -1}[cm.claimRcv])
+				}
+			}
+			bindField(env, "ExpectIssuedInThePast", false)
+			bindPresence(env, "iat", true)
+			if _, someOK, ok := run(env); ok && !someOK {
+				detail = "a future iat is rejected although ExpectIssuedInThePast is not set"
+			}
+		}
+		r.Check(detail == "", "C09.time", key, p.FuncPos(vt), detail, w.desc+" (folded for T<B, T==B, T>B over "+fmt.Sprint(len(cs))+" comparison(s))")
+	}
+	// missing expiration
+	{
+		detail := ""
+		for _, allow := range []bool{false, true} {
+			env := consteval.Env{}
+			bindPresence(env, "exp", false)
+			bindField(env, "AllowMissingExpiration", allow)
+			allFail, someOK, ok := run(env)
+			switch {
+			case !ok:
+				detail = "cannot fold validateTimestamps"
+			case !allow && !allFail:
+				detail = "a token without exp can pass although AllowMissingExpiration is not set"
+			case allow && !someOK:
+				detail = "a token without exp is rejected although AllowMissingExpiration is set"
+			}
+		}
+		r.Check(detail == "", "C09.time", "C09.time/validateTimestamps/missing-exp", p.FuncPos(vt), detail, "rejected iff !HasExpiration() && !AllowMissingExpiration")
+	}
+	// the clock is sampled per validation: every time.Now() of the JWT packages
+	// sits in a function reached from validateTimestamps and its result is not
+	// stored into an object
+	var badNow []string
+	nNow := 0
 	for _, f := range p.SortedFuncs(core.Product) {
 		if !isJWTPkg(core.Rel(core.PkgOf(f))) {
 			continue
 		}
-		for range callsTo(f, "time.Now") {
-			nowSites = append(nowSites, core.FuncID(f))
-		}
-	}
-	okNow := len(nowSites) == 1 && nowSites[0] == core.FuncID(vt)
-	r.Check(okNow, "C09.time", "C09.time/clock sampled per validation", p.FuncPos(vt), "the clock is sampled elsewhere than inside validateTimestamps (e.g. once at construction): "+strings.Join(nowSites, ","), "time.Now() only in validateTimestamps")
-	// NewValidator: skew limit, no write of FixedNow
-	if nvf := p.PkgFunc("jwt", "NewValidator"); nvf == nil {
-		r.AnchorMissing("C09.time", "jwt.NewValidator")
-	} else {
-		limit := false
-		for _, ret := range guard.Returns(nvf) {
-			if !guard.DefinitelyFails(ret) {
+		for _, cs := range callsTo(f, "time.Now") {
+			nNow++
+			if !seenFn[f] {
+				badNow = append(badNow, core.FuncID(f)+" (not reached from validateTimestamps)")
 				continue
 			}
-			for _, fct := range guard.BlockFacts(ret.Block()) {
-				if op, x, y, ok := guard.Cmp(fct); ok && op == token.GTR {
-					if mc, _ := guard.CallOf(x); mc != nil && guard.CalleeName(&mc.Call) == "(time.Duration).Minutes" {
-						if k, isC := guard.Strip(y).(*ssa.Const); isC && k.Value != nil && constant.Compare(constant.ToFloat(k.Value), token.EQL, constant.MakeFloat64(10)) {
-							limit = true
+			if v, isV := cs.(ssa.Value); isV && v.Referrers() != nil {
+				for _, ref := range *v.Referrers() {
+					if st, isS := ref.(*ssa.Store); isS {
+						if _, isFA := st.Addr.(*ssa.FieldAddr); isFA {
+							badNow = append(badNow, core.FuncID(f)+" (stored into an object)")
+						}
+						if _, isG := st.Addr.(*ssa.Global); isG {
+							badNow = append(badNow, core.FuncID(f)+" (stored into a global)")
 						}
 					}
 				}
 			}
 		}
-		r.Check(limit, "C09.time", "C09.time/NewValidator/skew limit", p.FuncPos(nvf), "NewValidator does not reject a clock skew above 10 minutes", "ClockSkew.Minutes() > 10 -> error")
+	}
+	r.Check(len(badNow) == 0 && nNow > 0, "C09.time", "C09.time/clock sampled per validation", p.FuncPos(vt), "the clock is not sampled inside each validation: "+strings.Join(badNow, ", ")+fmt.Sprintf(" (%d time.Now sites)", nNow), "every time.Now() is evaluated inside validateTimestamps (or a helper it calls) and not stored")
+	// NewValidator: skew limit, no write of FixedNow
+	if nvf := p.PkgFunc("jwt", "NewValidator"); nvf == nil {
+		r.AnchorMissing("C09.time", "jwt.NewValidator")
+	} else {
+		// folded: a skew of exactly 10 minutes is accepted, 10 minutes + 1 ns is rejected
+		ev2 := consteval.New()
+		runNV := func(skew int64) (allFail, someOK, ok bool) {
+			env := bindFieldLoadsByName(nvf, map[string]consteval.Val{"ClockSkew": consteval.C(skew)})
+			for _, prm := range nvf.Params {
+				env[prm] = consteval.Val{K: consteval.Ref}
+			}
+			outs, ok := ev2.Eval(nvf, nil, env)
+			if !ok || len(outs) == 0 {
+				return false, false, false
+			}
+			allFail = true
+			for _, o := range outs {
+				if !(o.IsErr() || guard.DefinitelyFails(o.Ret)) {
+					allFail, someOK = false, true
+				}
+			}
+			return allFail, someOK, true
+		}
+		const tenMin = int64(10 * 60 * 1e9)
+		_, okAt, ok1 := runNV(tenMin)
+		failAbove, _, ok2 := runNV(tenMin + 1)
+		failHuge, _, ok3 := runNV(1 << 62)
+		limit := ok1 && ok2 && ok3 && okAt && failAbove && failHuge
+		r.Check(limit, "C09.time", "C09.time/NewValidator/skew limit", p.FuncPos(nvf), fmt.Sprintf("NewValidator does not reject exactly the clock skews above 10 minutes (10min accepted=%v, 10min+1ns rejected=%v, 2^62ns rejected=%v)", okAt, failAbove, failHuge), "folded: ClockSkew = 10min accepted; 10min+1ns and 2^62ns rejected")
 		writesNow := false
 		allInstrs(nvf, func(ins ssa.Instruction) {
 			if _, fld, _, ok := guard.StoreField(ins); ok && fld == "FixedNow" {
@@ -479,7 +736,24 @@ func isNowValue(v ssa.Value, fn *ssa.Function) bool {
 	v = guard.Strip(v)
 	switch x := v.(type) {
 	case *ssa.Call:
-		return guard.CalleeName(&x.Call) == "time.Now"
+		if guard.CalleeName(&x.Call) == "time.Now" {
+			return true
+		}
+		// helper returning the clock: every return is a now-value and one is time.Now()
+		if g := x.Call.StaticCallee(); g != nil && g.Blocks != nil && g != fn && isJWTPkg(core.Rel(core.PkgOf(g))) {
+			rets := guard.Returns(g)
+			sawNow := false
+			for _, ret := range rets {
+				if len(ret.Results) != 1 || !isNowValue(ret.Results[0], g) {
+					return false
+				}
+				if c, _ := guard.CallOf(ret.Results[0]); c != nil && guard.CalleeName(&c.Call) == "time.Now" {
+					sawNow = true
+				}
+			}
+			return len(rets) > 0 && sawNow
+		}
+		return false
 	case *ssa.Phi:
 		sawNow := false
 		for _, e := range x.Edges {
